@@ -26,7 +26,7 @@ import (
 //   part 2: every VT value is encoded repeatedly (Go map iteration order differs between iterations): identical bytes,
 //           keys ascending at every level; a digest of all outputs is compared across fresh processes by the driver.
 
-var rankBytes = map[int]string{0: "1", 1: "B", 2: "a", 3: "b", 4: "é"}
+var rankBytes = map[int]string{0: "1", 1: "B", 2: "a", 3: "b", 4: "é", 5: "\uff21", 6: "\U0001F600"}
 
 func keyOf(ranks []any) string {
 	var sb strings.Builder
@@ -214,7 +214,7 @@ func runC09(permsFile, rowsFile string, seed int64, b *hc.Builder) {
 		nonASCII := false
 		for _, k := range row.Emitted {
 			emitted = append(emitted, keyOf(k))
-			if strings.Contains(keyOf(k), "é") {
+			if strings.ContainsAny(keyOf(k), "é\uff21\U0001F600") {
 				nonASCII = true
 			}
 		}
@@ -296,8 +296,12 @@ func runC09(permsFile, rowsFile string, seed int64, b *hc.Builder) {
 		stats["values"]++
 		feat := hc.FeatureKey(row.Av)
 		fls := flavours()
-		for k := range fls { // rotate: -order 1 starts with the second flavour, ...
-			fl := fls[(k+flavourOrder)%len(fls)]
+		for k := range fls { // -order 0: as listed; odd: reversed (query before path before header); other even: rotated
+			idx := (k + flavourOrder) % len(fls)
+			if flavourOrder%2 == 1 {
+				idx = len(fls) - 1 - k
+			}
+			fl := fls[idx]
 			var first string
 			for rep := 0; rep < 3; rep++ {
 				ptr := reflect.New(typ) // a fresh instance each time: maps are rebuilt
